@@ -41,7 +41,9 @@ var anchoredFiles = []string{
 	"graphql/executor/executor.go", "graphql/executor/error.go", "graphql/executor/path.go", "graphql/executor/ordered_map.go", "graphql/executor/grouped_field_set.go",
 	"graphql/executor/internal/future/future.go", "graphql/graphql.go", "graphql/ast/inspect.go", "graphql/ast/ast.go",
 	// the entry points a request reaches the pipeline through: HTTP, both WebSocket protocols, persisted queries
-	"api.go", "graphqlws.go", "persisted_query.go", "subscription.go",
+	"api.go", "graphqlws.go", "persisted_query.go", "subscription.go", "pagination.go", "fields.go", "scalars.go", "config.go",
+	// the introspection resolvers run inside every request that selects __schema / __type
+	"graphql/schema/introspection/introspection.go", "graphql/schema/introspection/marshal_value.go",
 	"graphql/transport/graphqlws/connection.go", "graphql/transport/graphqltransportws/connection.go",
 }
 
